@@ -15,6 +15,7 @@ var Checks = map[string]vh.CheckFunc{
 	"C07": C07,
 	"C08": C08,
 	"C09": C09,
+	"C10": C10,
 	"C13": C13,
 	"C18": C18,
 }
